@@ -2,7 +2,7 @@ SPECIFICATION Spec
 CONSTANTS
   Upems = {100, 1000, 1024, 2048}
   Vmetrics <- VmetricsDef
-  WidthModes = {"zero", "half", "em", "double"}
+  WidthModes = {"zero", "half", "em", "double", "quad"}
   Heights = {32, 64, 128, 136, 255, 256}
   Aspects <- AspectsDef
   GidSets <- GidSetsDef
